@@ -690,4 +690,54 @@ func TestReplayStartTLSPipelining(t *testing.T) {
 		ev.Eval()
 	}
 	ev.NonTrivial("scenario:credentials-pipelined-behind-starttls")
+	// the peer breaks the upgrade with something that is not TLS, waits for
+	// the reaction, and carries on in cleartext: the connection is not
+	// protected, credentials must not be accepted (InsecureAuth is off)
+	for _, late := range []string{"p3 LOGIN u p\r\n", "p3 AUTHENTICATE PLAIN AHUAcA==\r\n"} {
+		r := start(t, config{startTLS: true, features: stub.FAll})
+		if err := r.raw.Send("p1 STARTTLS\r\n"); err != nil {
+			t.Fatalf("send: %v", err)
+		}
+		if _, st, err := r.raw.WaitTag("p1"); err != nil || st.Status != "OK" {
+			t.Fatalf("STARTTLS: %v %v", st, err)
+		}
+		r.raw.Send("certainly not a TLS record\r\n")
+		time.Sleep(20 * time.Millisecond)
+		r.raw.Send(late)
+		r.raw.Timeout = 300 * time.Millisecond
+		r.raw.WaitTag("p3")
+		for _, c := range r.core.AllCalls() {
+			if c.Method == "Login" || c.Method == "Authenticate" {
+				t.Fatalf("after a failed TLS handshake the server accepted cleartext credentials (%q): %s %v", late, c.Method, c.Args)
+			}
+		}
+		r.stop()
+		ev.Eval()
+	}
+	ev.NonTrivial("scenario:cleartext-credentials-after-failed-handshake")
+}
+
+// TestReplaySlowIdle: a backend whose Idle takes its time to return after DONE.
+// IDLE is one command: nothing else of the session may be invoked (no next
+// command, no Close) before it has returned.
+func TestReplaySlowIdle(t *testing.T) {
+	for _, next := range []string{"n1 NOOP\r\nn2 LOGOUT\r\n", "n1 LOGOUT\r\n", "n1 UNAUTHENTICATE\r\nn2 LOGIN u p\r\n"} {
+		r := start(t, config{insecureAuth: true, features: stub.FAll})
+		r.core.IdleExitDelay = 1500 * time.Millisecond
+		r.raw.Timeout = 5 * time.Second
+		r.raw.Send("a1 LOGIN u p\r\na2 SELECT INBOX\r\na3 IDLE\r\n")
+		r.raw.WaitTag("a2")
+		time.Sleep(20 * time.Millisecond)
+		r.raw.Send("DONE\r\n" + next)
+		r.raw.WaitTag("a3")
+		lines := strings.Split(strings.TrimSuffix(next, "\r\n"), "\r\n")
+		r.raw.WaitTag(strings.Fields(lines[len(lines)-1])[0])
+		time.Sleep(50 * time.Millisecond)
+		if ov := r.core.Overlaps(); len(ov) > 0 {
+			t.Fatalf("session methods %v were invoked while Session.Idle had not returned yet (commands after DONE: %q)", ov, next)
+		}
+		r.stop()
+		ev.Eval()
+	}
+	ev.NonTrivial("scenario:slow-idle-backend")
 }
